@@ -30,7 +30,7 @@ PROPS = {
                        "keys — value-level",
     },
     "C06": {
-        "rules": [r_doaction.rule_osh_arms],
+        "rules": [r_doaction.rule_osh_arms, r_doaction.rule_osh_repress],
         "explanation": "Decides: every arm of do_action (21 Action variants) notifies the one-shot state machine of the press, "
                        "delegates to an inner action, or defers the action (R-OSH-ARMS); macro Press/Tap events notify too.",
         "not_decided": "which key is 'the next one', timeout arithmetic, stacking semantics — run-time values",
@@ -50,7 +50,7 @@ PROPS = {
                        "output characters are trusted to the parser's character table",
     },
     "C07": {
-        "rules": [r_idle.run, r_loop.run],
+        "rules": [r_idle.run, r_idle.run_keytiming, r_loop.run],
         "explanation": "Decides: (R-IDLE) every (type, field) of kanata's run-time state that has a self-dependent scalar update "
                        "(counter/timer) or loses elements in a function reachable from Kanata::tick_ms is read as a whole by "
                        "is_idle / can_block_update_idle_waiting (transitively), is covered by a container those read, or is listed "
@@ -130,7 +130,7 @@ PROPS = {
         "not_decided": "which of several output keys is preferred; layer search order — run-time values",
     },
     "C10": {
-        "rules": [r_opcode.run_all],
+        "rules": [r_opcode.run_all, r_doaction.rule_fork_keys],
         "explanation": "Decides the encoding layer of switch: (a) the opcode tag constants partition u16 (evaluated constants); "
                        "(b) every OpCode constructor's tag and bit-fields are decoded by opcode_type into the OpCodeType variant its "
                        "name states (value-set data-flow over the decoder; shift amounts and field masks agree; BooleanOperator "
